@@ -622,6 +622,98 @@ fn run_leak_grid(rep: &mut Report) {
     rep.extra.insert("leak_grid_cells".into(), json!(n));
 }
 
+/// Statement-context grid (exhaustive, deterministic): what the analyzer remembers from the LAST
+/// statement of one declaration must not colour the FIRST statement of the next one.  Declaration A
+/// ends with an assignment to a variable of some kind (enumeration with / without initial value,
+/// integer, subrange-typed, array element); declaration B begins with a bare name outside an
+/// assignment (IF / WHILE / CASE condition, call argument) - declared (the unit is valid) or not
+/// (P0015).  Every permutation and partition gives the same answer.
+fn context_grid_cells() -> Vec<(String, Vec<String>, Option<&'static str>)> {
+    let types = "TYPE\ncx_col : (cx_red, cx_green);\ncx_sr : INT(1..5);\nEND_TYPE\n".to_string();
+    let callee = "FUNCTION_BLOCK cx_callee\nVAR_INPUT\ncx_i : BOOL;\nEND_VAR\nEND_FUNCTION_BLOCK\n".to_string();
+    let lasts: Vec<(&str, &str, &str)> = vec![
+        ("enumeration with initial value", "cx_c : cx_col := cx_red;", "cx_c := cx_green;"),
+        // (assigning to an enumeration variable without initial value or to an array element is "not
+        // implemented" on the pinned tree - P9999 -, so those kinds are not in the grid)
+        ("integer", "cx_c : INT;", "cx_c := 1;"),
+        ("subrange-typed with initial value", "cx_c : cx_sr := 3;", "cx_c := 4;"),
+        ("boolean", "cx_c : BOOL := TRUE;", "cx_c := FALSE;"),
+        ("duration", "cx_c : TIME := T#1s;", "cx_c := T#2s;"),
+        ("real", "cx_c : REAL;", "cx_c := 1.5;"),
+    ];
+    let firsts: Vec<(&str, &str)> = vec![
+        ("IF", "IF cx_en THEN\ncx_y := 1;\nEND_IF;\n"),
+        ("WHILE", "WHILE cx_en DO\ncx_y := 1;\nEND_WHILE;\n"),
+        ("CASE", "CASE cx_en OF\n1: cx_y := 1;\nEND_CASE;\n"),
+        ("call argument", "cx_inst(cx_i := cx_en);\n"),
+        ("REPEAT", "REPEAT\ncx_y := 1;\nUNTIL cx_en\nEND_REPEAT;\n"),
+    ];
+    let mut out = vec![];
+    for (lname, ldecl, lstmt) in &lasts {
+        for akind in ["FUNCTION_BLOCK", "PROGRAM"] {
+            let a = format!("{} cx_a\nVAR\n{}\nEND_VAR\n{}\nEND_{}\n", akind, ldecl, lstmt, akind);
+            for (fname, fstmt) in &firsts {
+                for bkind in ["FUNCTION_BLOCK", "PROGRAM"] {
+                    for declared in [true, false] {
+                        let en = if declared { if *fname == "CASE" { "cx_en : INT;\n" } else { "cx_en : BOOL;\n" } } else { "" };
+                        let b = format!("{} cx_b\nVAR\n{}cx_y : INT;\ncx_inst : cx_callee;\nEND_VAR\n{}END_{}\n", bkind, en, fstmt, bkind);
+                        out.push((format!("{} ends with an assignment to a variable of kind '{}'; {} begins with {} on a {} name", akind, lname, bkind, fname, if declared { "declared" } else { "undeclared" }), vec![types.clone(), a.clone(), b, callee.clone()], if declared { None } else { Some("P0015") }));
+                    }
+                }
+            }
+        }
+    }
+    out
+}
+
+fn run_context_grid(rep: &mut Report) {
+    let cells = context_grid_cells();
+    let n = cells.len();
+    let out = run_items(&cells, 16, |(name, chunks, code), stats| {
+        let k = chunks.len();
+        let mut arrangements: Vec<Arrangement> = permutations(k).into_iter().map(|p| Arrangement { files: vec![p] }).collect();
+        arrangements.extend(partitions(k));
+        // the declaration B alone (with what it needs) says what the answer is
+        let alone = Arrangement { files: vec![vec![0, 2, 3]] };
+        let base = observe_analyze(&alone, chunks).map_err(|(kd, d)| Failure::new("context-grid", &kd, d, json!({"cell": name, "chunks": chunks})))?;
+        let expected_ok = code.is_none();
+        // (and declaration A on its own is acceptable - an assignment that the analyzer does not
+        // implement, P9999, says nothing about leaks)
+        let a_alone = observe_analyze(&Arrangement { files: vec![vec![0, 1]] }, chunks).map_err(|(kd, d)| Failure::new("context-grid", &kd, d, json!({"cell": name, "chunks": chunks})))?;
+        if !a_alone.ok {
+            stats.case(false, hash_str(name));
+            stats.class("context-grid.first-declaration-not-accepted(left out)");
+            return Ok(());
+        }
+        if base.ok != expected_ok || (!expected_ok && !base.codes.iter().any(|c| Some(c.as_str()) == *code)) {
+            stats.case(false, hash_str(name));
+            stats.class("context-grid.precondition-not-met(skipped)");
+            stats.notes.push(format!("context grid cell skipped ({}): B alone gives ok={} codes {:?}", name, base.ok, base.codes));
+            return Ok(());
+        }
+        for arr in &arrangements {
+            let o = observe_analyze(arr, chunks).map_err(|(kd, d)| Failure::new("context-grid", &kd, d, json!({"cell": name, "chunks": chunks})))?;
+            stats.case(true, hash_str(&format!("{}|{}", name, arr.describe())));
+            stats.class("context-grid.arrangement");
+            let bad = match code {
+                None => !o.ok,
+                Some(c) => o.ok || !o.codes.iter().any(|x| x == c),
+            };
+            if bad {
+                return Err(Failure::new(
+                    "context-grid",
+                    "statement-context-leaks-between-declarations",
+                    format!("{}: on its own the second declaration gives ok={} codes {:?}; arrangement {} gives ok={} codes {:?}", name, base.ok, base.codes, arr.describe(), o.ok, o.codes),
+                    json!({"cell": name, "chunks": chunks, "arrangement": arr.files, "files": arr.texts(chunks)}),
+                ));
+            }
+        }
+        Ok(())
+    });
+    rep.add(out);
+    rep.extra.insert("context_grid_cells".into(), json!(n));
+}
+
 fn fnv_of(t: &[u8]) -> u64 {
     crate::tape::fnv(t)
 }
@@ -638,6 +730,7 @@ pub fn run(ctx: &Ctx) -> i32 {
     let gates = ctx.gates_for("C06");
     let off = gates.off_list();
     run_leak_grid(&mut rep);
+    run_context_grid(&mut rep);
     let cases = ctx.tier.pick(8_000, 150_000);
     let cli_budget = std::sync::atomic::AtomicI64::new(ctx.tier.pick(80, 2000));
     let out = run_tapes("C06", ctx.seed, ctx.threads, cases, 700, |tape, stats, counting| {
